@@ -74,6 +74,10 @@ var tolChoices = []weighted[[]TolIn]{
 	{2, []TolIn{{Op: "Exists", Eff: "NoExecute"}}},
 	{3, []TolIn{{Key: "example.com/other", Op: "Exists"}, {Key: disruptedKey, Op: "Exists"}}},
 	{2, []TolIn{{Key: disruptedKey, Op: "Equal", Val: "x"}, {Key: "karpenter.sh/unregistered", Op: "Exists"}}},
+	// the matching toleration is NOT the last one (the API server appends the default not-ready / unreachable tolerations)
+	{4, []TolIn{{Key: disruptedKey, Op: "Exists"}, {Key: "node.kubernetes.io/not-ready", Op: "Exists", Eff: "NoExecute"}, {Key: "node.kubernetes.io/unreachable", Op: "Exists", Eff: "NoExecute"}}},
+	{3, []TolIn{{Op: "Exists"}, {Key: "example.com/other", Op: "Exists"}}},
+	{2, []TolIn{{Key: "example.com/other", Op: "Exists"}, {Key: disruptedKey, Op: "Equal", Val: "", Eff: "NoSchedule"}, {Key: disruptedKey, Op: "Equal", Val: "x"}}},
 }
 
 var dndDurations = []struct {
